@@ -218,27 +218,7 @@ func runC04(c *Ctx) {
 	}
 
 	// ---- DSC comments appended only on success
-	{
-		ia := c.interp()
-		f := c.method("postscript", "Interpreter", "Execute")
-		okAll := true
-		n := 0
-		eachInstr(f, func(ins ssa.Instruction) {
-			if st, ok := ins.(*ssa.Store); ok && isFieldAddr(st.Addr, ia.T, "DSC") {
-				n++
-				okNil := false
-				for _, cd := range domConds(st.Block()) {
-					if m, ok := asCmp(cd); ok && m.op == token.EQL && isNilConst(m.y) && types.Identical(m.x.Type(), types.Universe.Lookup("error").Type()) {
-						okNil = true
-					}
-				}
-				if !okNil {
-					okAll = false
-				}
-			}
-		})
-		c.check(okAll && n == 1, "LEX-DSC", c.fname(f), "DSC comments are handed to the interpreter only after an error-free run, in order", f.Pos(), "intp.DSC = append(intp.DSC, s.DSC...) under err == nil", "DSC comments are appended to Interpreter.DSC on a path where the run failed (or not at all)")
-	}
+	c.executeRules(false, true, false)
 }
 
 type escTable struct {
